@@ -236,7 +236,8 @@ def run(pid, tier, seed, workers=None, chunk=None):
         print('KNOWN-FINDING: property=%s %s [%d case signatures, e.g. %s]' % (
             pid, what, len(sigs), sigs[0]))
 
-    rdir = os.path.join(ROOT, 'replays', pid)
+    alt = os.environ.get('FCVERIF_EVIDENCE_DIR')      # runs against seeded changes must not overwrite the real evidence
+    rdir = os.path.join(alt, 'replays', pid) if alt else os.path.join(ROOT, 'replays', pid)
     reported = 0
     nondet = 0
     for v in new[:10]:
@@ -292,8 +293,9 @@ def run(pid, tier, seed, workers=None, chunk=None):
         'wall_s': round(wall, 2), 'violations': len(new),
         'technique': getattr(mod, 'TECHNIQUE', ''),
     }
-    os.makedirs(os.path.join(ROOT, 'evidence'), exist_ok=True)
-    with open(os.path.join(ROOT, 'evidence', pid + '.json'), 'w') as f:
+    evdir = os.path.join(alt, 'evidence') if alt else os.path.join(ROOT, 'evidence')
+    os.makedirs(evdir, exist_ok=True)
+    with open(os.path.join(evdir, pid + '.json'), 'w') as f:
         json.dump(ev, f, indent=1, sort_keys=True, default=str)
         f.write('\n')
     print('%s tier=%s seed=%d cases=%d evaluations=%d nontrivial=%d classes=%d violations=%d '
